@@ -185,6 +185,7 @@ def check_stream_props(prop, tier, seed, log=print):
                           key='cert|%s' % corpus[idx].origin)
     if prop == 'C03':
         c03_extra(run, r, log)
+        c03_trace_pass(run, r, log)
     if prop == 'C01':
         lk = pikevm_pass(run, r, log)
         run.coverage['lookaround_reference'] = lk
@@ -490,6 +491,63 @@ def c03_predicate(impl, n):
     if final != (n, n):
         return 'final span %s != input length %d' % (final, n)
     return None
+
+
+def c03_trace_predicate(items, evs, n):
+    """'the gaps between the items are exactly the skipped regions', on the real event trace: every call of next starts
+    where the previous item ended (the first one at 0), and an item starts where its call started or where the last
+    trivia() call of that call left the start; a region not covered by an item is therefore covered by trivia() calls"""
+    calls = []
+    for e in evs:
+        if e[0] == 'N':
+            calls.append([e[1], []])
+        elif e[0] == 'T' and calls:
+            calls[-1][1].append(e[1])
+    if not calls:
+        return None
+    if calls[0][0] != 0:
+        return 'the first call of next starts at %d, not at 0: bytes 0..%d are neither an item nor skipped' % (calls[0][0], calls[0][0])
+    prev_end = 0
+    for k, (start, trivia) in enumerate(calls):
+        if start != prev_end:
+            return 'call %d of next starts at %d, the previous item ended at %d' % (k, start, prev_end)
+        cur = start
+        for q in trivia:
+            if q < cur or q > n:
+                return 'trivia() moved the start from %d to %d' % (cur, q)
+            cur = q
+        if k < len(items):
+            (_, name, s_, e_) = items[k]
+            if s_ != cur:
+                return 'item %s starts at %d; its call started at %d and trivia() calls account for bytes up to %d' % (name, s_, start, cur)
+            prev_end = e_
+        else:
+            break
+    return None
+
+
+def c03_trace_pass(run, r, log):
+    n = bad = 0
+    for cfgname, outs in r['zoo_out'].items():
+        if 'trace' not in cfgname or outs is None:
+            continue
+        for ln in outs:
+            idx, mode, hx, v = split_line(ln)
+            if mode != 't':
+                continue
+            evs = parse_trace(v)
+            if evs is None:
+                continue
+            impl = parse_stream(v)
+            if impl[2] is not None:
+                continue
+            n += 1
+            why = c03_trace_predicate(impl[0], evs, len(bytes.fromhex(hx if hx != '-' else '')))
+            if why:
+                bad += 1
+                run.violation('gap-not-skipped', rep_of(r, idx, cfgname, mode, hx, observed=v, what=why), key='gap|%s|%s' % (r['corpus'][idx].origin, hx))
+    run.coverage['gaps_accounted_by_trivia_calls'] = dict(traces=n, failures=bad,
+        what='real event traces (verif_trace): every next() starts at the previous item end (the first at 0) and every item starts where the trivia() calls of its next() left off')
 
 
 def c03_extra(run, r, log):
